@@ -28,7 +28,7 @@ contract(M + 'match_scope', params=dict(self=CSSMATCH, el=NODE), returns=BOOL, e
 OPT_INT_ = TOpt(FLAGS)
 _STRDIR = "is_str_val(attr_by_name({0}, 'dir', ''))"
 contract(M + 'find_bidi', params=dict(self=CSSMATCH, el=NODE), returns=OPT_INT_, requires=['el is not None', 'is_tag(el)'],
-         ensures=['result == bidi_of(self, all_kids(self, el), 0)'], decreases='height(el)', unfold=4,
+         ensures=['result == bidi_of(self, all_kids(self, el), 0)'], decreases='height(el)', unfold=2,
          locals=dict(direction=OPT_INT_, name=OPT_STR, value=OPT_INT_),
          loops={1: dict(var='node', assume_elem=['node is not None', 'parent(node) == el', _STRDIR.format('node')],
                         invariant=['_seq1 == all_kids(self, el)', 'bidi_of(self, _seq1, _i1) == bidi_of(self, _seq1, 0)']),
@@ -330,8 +330,19 @@ contract(NAVQ + 'get_text', params=dict(self=CSSMATCH, el=NODE, no_iframe=BOOL),
 contract(NAVQ + 'get_own_text', params=dict(self=CSSMATCH, el=NODE, no_iframe=BOOL), returns=TSeq(STR), requires=['el is not None'],
          ensures=['result == own_texts(self, el, no_iframe)'],
          comps={1: dict(var='node', fold='texts_from', args='', assume_elem=['node is not None'])}, properties=['C19'])
+# desc_spec is the name callers use for the result of this pure function (`defines`); what is proved about it is desc_def
+_DS = 'descendants(el)'
 contract(NAVQ + 'get_descendants', params=dict(self=CSSMATCH, el=NODE, tags=BOOL, no_iframe=BOOL), returns=SEQ_NODE, kind='generator',
-         ensures=['result == desc_spec(self, el, tags, no_iframe)'], opaque=True, properties=['C19'])
+         ensures=['result == desc_def(self, el, tags, no_iframe)'], defines=['result == desc_spec(self, el, tags, no_iframe)'],
+         locals=dict(next_good=NODE, last_child=NODE),
+         loops={1: dict(var='child',
+                        invariant=[f'_seq1 == {_DS}',
+                                   f'implies(next_good is None, yields + desc_flat(self, _seq1, _i1, tags, no_iframe) == desc_flat(self, _seq1, 0, tags, no_iframe))',
+                                   f'implies(next_good is not None, dindex(el, next_good) >= _i1 and '
+                                   f'yields + desc_flat(self, _seq1, dindex(el, next_good), tags, no_iframe) == desc_flat(self, _seq1, 0, tags, no_iframe))']),
+                2: dict(invariant=['last_desc(last_child) == last_desc(child)', 'last_child is not None'],
+                        decreases='height(last_child)')},
+         properties=['C19', 'C03'])
 contract(M + 'match_defined', params=dict(self=CSSMATCH, el=NODE), returns=BOOL, requires=['el is not None'],
          ensures=['result == sem_defined(self, el)'], properties=['C01'])
 contract(M + 'match_placeholder_shown', params=dict(self=CSSMATCH, el=NODE), returns=BOOL, requires=['el is not None'],
